@@ -25,28 +25,93 @@ type c10Pub struct {
 }
 
 type c10Redis struct {
-	ln   net.Listener
-	mu   sync.Mutex
-	pubs []c10Pub
-	cmds map[string]int
+	ln    net.Listener
+	addr  string
+	mu    sync.Mutex
+	pubs  []c10Pub
+	total int // publications ever recorded
+	cmds  map[string]int
+	conns map[net.Conn]struct{}
 }
 
-func c10StartRedis() (*c10Redis, error) {
-	ln, err := net.Listen("tcp", "127.0.0.1:0")
+func c10StartRedis() (*c10Redis, error) { return c10StartRedisAt("127.0.0.1:0") }
+
+// c10StartRedisAt listens on a given address ("127.0.0.1:6379" is where the station's own initialiser
+// looks for the server).
+func c10StartRedisAt(addr string) (*c10Redis, error) {
+	r := &c10Redis{cmds: map[string]int{}, conns: map[net.Conn]struct{}{}}
+	ln, err := net.Listen("tcp", addr)
 	if err != nil {
 		return nil, err
 	}
-	r := &c10Redis{ln: ln, cmds: map[string]int{}}
+	r.addr = ln.Addr().String()
+	r.listen(ln)
+	return r, nil
+}
+
+func (r *c10Redis) listen(ln net.Listener) {
+	r.mu.Lock()
+	r.ln = ln
+	r.mu.Unlock()
 	go func() {
 		for {
 			c, err := ln.Accept()
 			if err != nil {
 				return
 			}
+			r.mu.Lock()
+			if r.ln != ln { // went down in the meantime
+				r.mu.Unlock()
+				c.Close()
+				continue
+			}
+			r.conns[c] = struct{}{}
+			r.mu.Unlock()
 			go r.serve(c)
 		}
 	}()
-	return r, nil
+}
+
+// goDown makes the server unreachable: the listener is closed (connections are refused) and every open
+// connection is dropped.
+func (r *c10Redis) goDown() {
+	r.mu.Lock()
+	ln := r.ln
+	r.ln = nil
+	var cs []net.Conn
+	for c := range r.conns {
+		cs = append(cs, c)
+	}
+	r.conns = map[net.Conn]struct{}{}
+	r.mu.Unlock()
+	if ln != nil {
+		ln.Close()
+	}
+	for _, c := range cs {
+		c.Close()
+	}
+}
+
+// comeUp listens on the same address again.
+func (r *c10Redis) comeUp() error {
+	r.mu.Lock()
+	up := r.ln != nil
+	r.mu.Unlock()
+	if up {
+		return nil
+	}
+	ln, err := net.Listen("tcp", r.addr)
+	if err != nil {
+		return err
+	}
+	r.listen(ln)
+	return nil
+}
+
+func (r *c10Redis) count() int {
+	r.mu.Lock()
+	defer r.mu.Unlock()
+	return r.total
 }
 
 func c10ReadCommand(br *bufio.Reader) ([][]byte, error) {
@@ -91,7 +156,12 @@ func c10ReadCommand(br *bufio.Reader) ([][]byte, error) {
 }
 
 func (r *c10Redis) serve(c net.Conn) {
-	defer c.Close()
+	defer func() {
+		c.Close()
+		r.mu.Lock()
+		delete(r.conns, c)
+		r.mu.Unlock()
+	}()
 	br := bufio.NewReader(c)
 	for {
 		args, err := c10ReadCommand(br)
@@ -111,6 +181,7 @@ func (r *c10Redis) serve(c net.Conn) {
 		case "PUBLISH":
 			if len(args) == 3 {
 				r.pubs = append(r.pubs, c10Pub{channel: string(args[1]), payload: append([]byte(nil), args[2]...)})
+				r.total++
 				reply = ":1\r\n"
 			} else {
 				reply = "-ERR wrong number of arguments for 'publish' command\r\n"
@@ -136,5 +207,5 @@ func (r *c10Redis) take() []c10Pub {
 // the lazy initialiser is consumed so that it does not replace the client with localhost:6379.
 func c10PointStationAt(r *c10Redis) {
 	once.Do(func() {})
-	client = redis.NewClient(&redis.Options{Addr: r.ln.Addr().String(), Password: "", DB: 0, PoolSize: 4})
+	client = redis.NewClient(&redis.Options{Addr: r.addr, Password: "", DB: 0, PoolSize: 4})
 }
